@@ -436,3 +436,43 @@ pub fn caller_guard_bad_a(s: &St, x: u32) {
 pub fn caller_guard_bad_b(s: &St, x: u32) {
     helper_act2(s, x);
 }
+
+// ------------------------------------------------------------------ virtual inlining of new private helpers
+fn inl_helper(_s: &St, x: u32) -> u32 {
+    act(x);
+    x + 1
+}
+
+/// guard in the caller, action in a (new) private helper: after inlining the action is seen under the guard
+pub fn inl_caller(s: &St, x: u32) -> u32 {
+    if !s.flag && x < 10 {
+        return inl_helper(s, x);
+    }
+    0
+}
+
+fn inl_pred(s: &St, x: u32) -> bool {
+    if s.done {
+        s.votes[0].is_none()
+    } else {
+        !s.flag && x < 10
+    }
+}
+
+/// condition in a (new) private predicate helper with one result expression per branch
+pub fn inl_pred_caller(s: &St, x: u32) {
+    if inl_pred(s, x) {
+        act(x);
+    }
+}
+
+async fn inl_async_helper(_s: &St, x: u32) {
+    act(x);
+}
+
+/// the same with an `async fn` helper awaited under the guard
+pub async fn inl_async_caller(s: &St, x: u32) {
+    if !s.flag {
+        inl_async_helper(s, x).await;
+    }
+}
